@@ -32,8 +32,9 @@ func vKRun(ss []vSess, node string) (*frrv1beta1.FRRConfiguration, bool) {
 		cfg := c.(frrv1beta1.FRRConfiguration)
 		got = &cfg
 	}
+	pool := map[string]*bgp.Advertisement{} // equal advertisements of different sessions are one object, as in the speaker
 	for _, s := range ss {
-		se := &session{SessionParameters: vParams(s), sessionManager: sm, advertised: vAdvertisements(s), logger: log.NewNopLogger()}
+		se := &session{SessionParameters: vParams(s), sessionManager: sm, advertised: vAdvertisementsIn(s, pool), logger: log.NewNopLogger()}
 		sm.sessions[sessionName(*se)] = se
 	}
 	if err := sm.updateConfig(); err != nil {
